@@ -23,8 +23,11 @@ func init() {
 			"felix/rules derives — through phis, slices, parameters (≤3 caller levels) — only from string constants, EndpointChainName, PolicyChainName, ProfileChainName, PolicyGroup.ChainName or the child-chain " +
 			"Sprintf; every GetLengthLimitedID/EndpointChainName length argument is the back-end limit (r.maxNameLength or the iptables/nftables constant selected by nft). (marker) in GetLengthLimitedID the " +
 			"unshortened return is only reachable when the name fits and is not a full-length name starting with the marker; the shortened return is prefix+marker+hash cut to the remaining length. (ipsets) static " +
-			"IP set IDs are distinct, contain no ':' and survive NameForMainIPSet without truncation.",
-		NotDecided: "Hash collisions (SHA-256/SHA3 truncated); that policy IDs / interface names are themselves unique; PolicyGroup.UniqueID internals; dynamic IP set IDs; names built outside felix/rules (e.g. ARP chains in the endpoint manager).",
+			"IP set IDs are distinct, contain no ':' and survive NameForMainIPSet without truncation. (fields) PolicyChainName, ProfileChainName and PolicyGroup.UniqueID read, in their static call closure, every exported field of " +
+			"every identity struct they are handed (PolicyID, ProfileID, PolicyGroup and its member PolicyIDs); PolicyID.KindShortName maps kinds to pairwise distinct constants. (through) every return of EndpointChainName, " +
+			"PolicyChainName, ProfileChainName, PolicyGroup.ChainName and NameForMainIPSet is a result of GetLengthLimitedID / combineAndTrunc (possibly via a helper) or constant prefix + hash cut to a constant length; " +
+			"combineAndTrunc returns the untruncated string only when it fits.",
+		NotDecided: "Hash collisions (SHA-256/SHA3 truncated); that policy IDs / interface names are themselves unique; injectivity of the hash input encodings (only that every identity field is read); dynamic IP set IDs; names built outside felix/rules (e.g. ARP chains in the endpoint manager).",
 		Assumptions: []string{
 			"go/types + go/ssa (x/tools v0.50.0) model of the current source, CGO_ENABLED=0 build",
 			"dynamic prefixes are recognised by value shape: constants of felix/rules starting with ChainNamePrefix and ending in '-'",
@@ -58,6 +61,22 @@ func init() {
 				Old: "return fixedPrefix + shortenedPrefix + hash[0:charsLeftForHash]", New: "return fixedPrefix + hash[0:charsLeftForHash+1]", Expect: "C37.marker/short-shape"},
 			{Name: "two static IP sets share an ID", File: "felix/rules/rule_defs.go",
 				Old: "IPSetIDAllVXLANSourceNets = \"all-vxlan-net\"", New: "IPSetIDAllVXLANSourceNets = \"all-hosts-net\"", Expect: "C37.ipsets/distinct"},
+			{Name: "policy-group UID hashes namespace and name of each member but not its kind", File: "felix/rules/endpoints.go",
+				Old: "\t\twrite(policy.String())", New: "\t\twrite(policy.Namespace)\n\t\twrite(policy.Name)", Expect: "C37.fields/PolicyGroup.UniqueID/PolicyID.Kind"},
+			{Name: "policy-group UID no longer covers the selector", File: "felix/rules/endpoints.go",
+				Old: "\twrite(g.Selector)\n", New: "", Expect: "C37.fields/PolicyGroup.UniqueID/PolicyGroup.Selector"},
+			{Name: "policy chain named after the bare policy name", File: "felix/rules/policy.go",
+				Old: "\t\tpolID.ID(),", New: "\t\tpolID.Name,", Expect: "C37.fields/PolicyChainName/PolicyID.Namespace"},
+			{Name: "two policy kinds share a short name", File: "felix/types/policy_id.go",
+				Old: "ShortKindStagedNetworkPolicy            string = \"snp\"", New: "ShortKindStagedNetworkPolicy            string = \"np\"", Expect: "C37.fields/kind-injective"},
+			{Name: "profile chain name fast path returns prefix+name when it fits", File: "felix/rules/policy.go",
+				Old: "\treturn hash.GetLengthLimitedID(\n\t\tstring(prefix),\n\t\tprofID.Name,", New: "\tif len(string(prefix))+len(profID.Name) <= maxLen {\n\t\treturn string(prefix) + profID.Name\n\t}\n\treturn hash.GetLengthLimitedID(\n\t\tstring(prefix),\n\t\tprofID.Name,", Expect: "C37.through/ProfileChainName"},
+			{Name: "endpoint chain name fast path for short interface names", File: "felix/rules/endpoints.go",
+				Old: "func EndpointChainName(prefix string, ifaceName string, maxLen int) string {\n", New: "func EndpointChainName(prefix string, ifaceName string, maxLen int) string {\n\tif len(prefix)+len(ifaceName) <= maxLen {\n\t\treturn prefix + ifaceName\n\t}\n", Expect: "C37.through/EndpointChainName"},
+			{Name: "policy-group UID no longer cut to a fixed length", File: "felix/rules/endpoints.go",
+				Old: "EncodeToString(hashBytes)[:MaxPolicyGroupUIDLength]", New: "EncodeToString(hashBytes)", Expect: "C37.through/PolicyGroup.ChainName"},
+			{Name: "IP set names one over the limit kept untruncated", File: "felix/ipsets/ipset_defs.go",
+				Old: "\tif len(combined) > maxLength {", New: "\tif len(combined) > maxLength+1 {", Expect: "C37.through/combineAndTrunc"},
 			{Name: "static IP set ID truncated by NameForMainIPSet", File: "felix/rules/rule_defs.go",
 				Old: "IPSetIDNATOutgoingMasqPools = \"masq-ipam-pools\"", New: "IPSetIDNATOutgoingMasqPools = \"masq-ipam-pools-for-nat-outgoing\"", Expect: "C37.ipsets/fits/IPSetIDNATOutgoingMasqPools"},
 		},
@@ -69,6 +88,7 @@ const (
 	c37IPSets   = "felix/ipsets"
 	c37IPTables = "felix/iptables"
 	c37NFTables = "felix/nftables"
+	c37TypesPkg = "felix/types"
 )
 
 func c37IntConst(c *Ctx, p *Prog, pkg, name string) int64 {
@@ -87,12 +107,14 @@ func c37IntConst(c *Ctx, p *Prog, pkg, name string) int64 {
 }
 
 func runC37(c *Ctx) {
-	p := c.Load(c10RulesPkg, c37HashPkg, c37IPSets)
+	p := c.Load(c10RulesPkg, c37HashPkg, c37IPSets, c37TypesPkg)
 	c.Rule("C37.prefixes", "E-CONST", "dynamic chain-name prefixes: distinct, pairwise prefix-free, no static chain name inside their namespace, room for marker+hash, policy-group prefixes of equal length", 60)
 	c.Rule("C37.static", "E-CONST", "static chain names and dispatch child-chain names fit iptables.MaxChainNameLength", 40)
 	c.Rule("C37.sanitise", "E-FLOW", "chain-name sinks (Jump/GoTo target, Chain.Name) derive only from constants and the length-limiting name functions; length arguments are the back-end limit", 30)
 	c.Rule("C37.marker", "E-GUARD", "GetLengthLimitedID: unshortened return only if the name fits and is not a full-length marker-prefixed name; shortened return = prefix+marker+hash[:rest]", 3)
 	c.Rule("C37.ipsets", "E-CONST", "static IP set IDs distinct, ':'-free, not truncated by NameForMainIPSet", 9)
+	c.Rule("C37.fields", "E-FIELDS", "every name-deriving function reads every exported field of the identity structs it is given (receiver / parameters / slice elements), so two identities differing in any field get different hash inputs; KindShortName maps kinds to pairwise distinct constants", 11)
+	c.Rule("C37.through", "E-FLOW", "every return of a chain/set name function is the result of the length-limiting function (GetLengthLimitedID / combineAndTrunc, possibly via a helper) or constant prefix + fixed-length hash: no path hands the identity to the name verbatim", 6)
 
 	iptMax := c37IntConst(c, p, c37IPTables, "MaxChainNameLength")
 	nftMax := c37IntConst(c, p, c37NFTables, "MaxChainNameLength")
@@ -105,6 +127,8 @@ func runC37(c *Ctx) {
 	c37Sanitise(c, p)
 	c37Marker(c, p)
 	c37IPSetIDs(c, p)
+	c37Fields(c, p)
+	c37Through(c, p, iptMax)
 }
 
 // ---------------------------------------------------------------- prefixes --
@@ -892,4 +916,323 @@ func c37IPSetIDs(c *Ctx, p *Prog) {
 		}
 		c.Check(len(bad) == 0, "C37.ipsets/fits/"+k.Name, p.Pos(k.Obj.Pos()), fmt.Sprintf("%q fits in %d characters", k.Val, room), fmt.Sprintf("%q: %s", k.Val, strings.Join(bad, "; ")))
 	}
+}
+
+// ------------------------------------------------------------------ fields --
+
+// c37IdentityStructs collects the named struct types declared in felix/types
+// or felix/rules that an identity value of type t carries: t itself (through
+// pointers), the elements of its slices/arrays/maps and the types of its
+// exported fields.
+func c37IdentityStructs(t types.Type, seen map[*types.Named]bool, out *[]*types.Named) {
+	switch x := types.Unalias(t).(type) {
+	case *types.Pointer:
+		c37IdentityStructs(x.Elem(), seen, out)
+	case *types.Slice:
+		c37IdentityStructs(x.Elem(), seen, out)
+	case *types.Array:
+		c37IdentityStructs(x.Elem(), seen, out)
+	case *types.Map:
+		c37IdentityStructs(x.Key(), seen, out)
+		c37IdentityStructs(x.Elem(), seen, out)
+	case *types.Named:
+		st, ok := x.Underlying().(*types.Struct)
+		if !ok || x.Obj().Pkg() == nil || seen[x] {
+			return
+		}
+		if pp := x.Obj().Pkg().Path(); pp != calicoPrefix+c37TypesPkg && pp != calicoPrefix+c10RulesPkg {
+			return
+		}
+		seen[x] = true
+		*out = append(*out, x)
+		for i := 0; i < st.NumFields(); i++ {
+			if st.Field(i).Exported() {
+				c37IdentityStructs(st.Field(i).Type(), seen, out)
+			}
+		}
+	}
+}
+
+// c37Fields: a name is a function of the identity; if the function never reads
+// a field of the identity, two identities differing only in that field get the
+// same name.  For each name-deriving function, every exported field of every
+// identity struct it is handed (receiver, parameters, and what those contain)
+// must be read somewhere in the function's static call closure.
+func c37Fields(c *Ctx, p *Prog) {
+	n := 0
+	for _, name := range []string{"PolicyChainName", "ProfileChainName", "PolicyGroup.UniqueID"} {
+		fn := c10MustFunc(c, p, c10RulesPkg, name)
+		var ids []*types.Named
+		seen := map[*types.Named]bool{}
+		for _, par := range fn.Params {
+			c37IdentityStructs(par.Type(), seen, &ids)
+		}
+		if len(ids) == 0 {
+			c.Lost("%s takes no identity struct from felix/types or felix/rules", name)
+		}
+		reach := reachableFuncs([]*ssa.Function{fn}, nil)
+		for _, id := range ids {
+			read := fieldsRead(reach, id)
+			fields := structFieldNames(id, true)
+			if len(fields) == 0 {
+				c.Lost("%s: identity struct %s has no exported field", name, id.Obj().Name())
+			}
+			for _, f := range fields {
+				n++
+				c.Check(len(read[f]) > 0, fmt.Sprintf("C37.fields/%s/%s.%s", name, id.Obj().Name(), f), p.Pos(fn.Pos()),
+					fmt.Sprintf("%s.%s is read in the call closure of %s (%d functions)", id.Obj().Name(), f, name, len(reach)),
+					fmt.Sprintf("%s never reads %s.%s (nor does anything it calls): two identities that differ only in %s get the same name", name, id.Obj().Name(), f, f))
+			}
+		}
+	}
+	if n < 10 {
+		c.Lost("expected ≥10 identity fields over the name-deriving functions, found %d", n)
+	}
+	// the kind reaches policy chain names only through KindShortName: its constant results must be pairwise distinct
+	ks := c10MustFunc(c, p, c37TypesPkg, "PolicyID.KindShortName")
+	seenK := map[string]bool{}
+	var dup []string
+	nk := 0
+	for _, r := range returnsOf(ks) {
+		for _, o := range origins(r.Results[0], nil) {
+			if s, ok := c10StrConst(o.V); ok {
+				nk++
+				if seenK[s] {
+					dup = append(dup, fmt.Sprintf("%q", s))
+				}
+				seenK[s] = true
+			}
+		}
+	}
+	if nk < 7 {
+		c.Lost("PolicyID.KindShortName: expected ≥7 constant short names, found %d", nk)
+	}
+	c.Check(len(dup) == 0, "C37.fields/kind-injective", p.Pos(ks.Pos()), fmt.Sprintf("%d policy kinds map to pairwise distinct short names", nk),
+		"two policy kinds share the short name "+strings.Join(dup, ", ")+": policies of those kinds with the same namespace/name get the same chain name")
+}
+
+// ----------------------------------------------------------------- through --
+
+type c37Thru struct {
+	c        *Ctx
+	p        *Prog
+	limiters map[*types.Func]bool
+	rootFns  []*ssa.Function
+}
+
+func c37Flatten(v ssa.Value) []ssa.Value {
+	if bo, ok := v.(*ssa.BinOp); ok && bo.Op == token.ADD {
+		return append(c37Flatten(bo.X), c37Flatten(bo.Y)...)
+	}
+	return []ssa.Value{v}
+}
+
+func (t *c37Thru) inRoots(f *ssa.Function) bool {
+	if f == nil || f.Blocks == nil || f.Pkg == nil {
+		return false
+	}
+	pp := f.Pkg.Pkg.Path()
+	return pp == calicoPrefix+c10RulesPkg || pp == calicoPrefix+c37IPSets
+}
+
+// fixed: "" if v always has one constant length (a hash cut to a constant
+// number of characters), following helper results and cached fields.
+func (t *c37Thru) fixed(v ssa.Value, depth int) string {
+	for _, leaf := range c37Leaves(v) {
+		switch x := leaf.(type) {
+		case *ssa.Slice:
+			if _, ok := constOf(x.High); x.High == nil || !ok {
+				return "slice " + path(x) + " without a constant upper bound"
+			}
+			if x.Low != nil {
+				if cv, ok := constOf(x.Low); !ok || cv.ExactString() != "0" {
+					return "slice " + path(x) + " with a non-zero lower bound"
+				}
+			}
+		case *ssa.Call:
+			callee := calleeFn(x.Common())
+			if !t.inRoots(callee) || depth == 0 {
+				return "result of " + path(x)
+			}
+			rs := returnsOf(callee)
+			if len(rs) == 0 {
+				return "result of " + path(x) + " (no return)"
+			}
+			for _, r := range rs {
+				if len(r.Results) != 1 {
+					return "result of " + path(x)
+				}
+				if msg := t.fixed(r.Results[0], depth-1); msg != "" {
+					return fnName(callee) + " returns " + msg
+				}
+			}
+		case *ssa.UnOp:
+			fa, ok := x.X.(*ssa.FieldAddr)
+			fv := fieldVar(x.X)
+			if x.Op != token.MUL || !ok || fv == nil || depth == 0 {
+				return "value " + path(x)
+			}
+			_ = fa
+			nst := 0
+			for _, f := range t.rootFns {
+				var bad string
+				allInstrs(f, false, func(_ *ssa.Function, in ssa.Instruction) {
+					st, ok := in.(*ssa.Store)
+					if !ok || fieldVar(st.Addr) != fv {
+						return
+					}
+					if _, isFA := st.Addr.(*ssa.FieldAddr); !isFA {
+						return
+					}
+					nst++
+					if msg := t.fixed(st.Val, depth-1); msg != "" && bad == "" {
+						bad = fmt.Sprintf("field %s is assigned %s at %s", fv.Name(), msg, t.p.Pos(st.Pos()))
+					}
+				})
+				if bad != "" {
+					return bad
+				}
+			}
+			if nst == 0 {
+				return "field " + fv.Name() + " with no visible assignment"
+			}
+		default:
+			return "value " + path(leaf)
+		}
+	}
+	return ""
+}
+
+// limited: "" if every source of v is a result of the length-limiting
+// function (directly or through a helper in felix/rules / felix/ipsets whose
+// every return is limited), a string constant, or constant + fixed-length hash.
+func (t *c37Thru) limited(v ssa.Value, depth int) string {
+	for _, leaf := range c37Leaves(v) {
+		switch x := leaf.(type) {
+		case *ssa.Const:
+			if _, ok := c10StrConst(x); !ok {
+				return "non-string constant"
+			}
+		case *ssa.Call:
+			if f := calleeOf(x.Common()); f != nil && t.limiters[f] {
+				continue
+			}
+			callee := calleeFn(x.Common())
+			if !t.inRoots(callee) || depth == 0 {
+				return "the result of " + path(x) + ", which is not the length-limiting function"
+			}
+			rs := returnsOf(callee)
+			if len(rs) == 0 {
+				return "the result of " + path(x) + " (no return)"
+			}
+			for _, r := range rs {
+				if len(r.Results) != 1 {
+					return "the result of " + path(x)
+				}
+				if msg := t.limited(r.Results[0], depth-1); msg != "" {
+					return msg + " (in " + fnName(callee) + " at " + t.p.Pos(r.Pos()) + ")"
+				}
+			}
+		case *ssa.BinOp:
+			if x.Op != token.ADD {
+				return "value " + path(x)
+			}
+			for _, op := range c37Flatten(x) {
+				if _, ok := c10StrConst(op); ok {
+					continue
+				}
+				if msg := t.fixed(op, depth); msg != "" {
+					return "the concatenation " + path(x) + " whose part " + path(op) + " is neither a constant nor a fixed-length hash (" + msg + ")"
+				}
+			}
+		default:
+			return "value " + path(leaf)
+		}
+	}
+	return ""
+}
+
+// c37Through: the sanitise family trusts the results of the name functions;
+// this family looks inside them.  A name function must hand the identity to
+// the length limiter on every path: a return that derives from anything else
+// (say prefix+name on a "fits anyway" fast path) skips the limiter's marker
+// rule, so a verbatim name can equal another identity's shortened name.
+func c37Through(c *Ctx, p *Prog, iptMax int64) {
+	gl, _ := p.LookupObj(c37HashPkg, "GetLengthLimitedID").(*types.Func)
+	cat, _ := p.LookupObj(c37IPSets, "combineAndTrunc").(*types.Func)
+	if gl == nil || cat == nil {
+		c.Lost("hash.GetLengthLimitedID / ipsets.combineAndTrunc")
+	}
+	t := &c37Thru{c: c, p: p, limiters: map[*types.Func]bool{gl: true, cat: true}}
+	for _, f := range p.AllFuncs() {
+		if f.Pkg != nil && f.Parent() == nil && t.inRoots(f) {
+			t.rootFns = append(t.rootFns, f)
+		}
+	}
+	type nf struct{ pkg, name string }
+	for _, n := range []nf{{c10RulesPkg, "EndpointChainName"}, {c10RulesPkg, "PolicyChainName"}, {c10RulesPkg, "ProfileChainName"},
+		{c10RulesPkg, "PolicyGroup.ChainName"}, {c37IPSets, "IPVersionConfig.NameForMainIPSet"}} {
+		fn := c10MustFunc(c, p, n.pkg, n.name)
+		rs := returnsOf(fn)
+		if len(rs) == 0 {
+			c.Lost("%s has no return", n.name)
+		}
+		var bad []string
+		for _, r := range rs {
+			if len(r.Results) != 1 {
+				c.Lost("%s does not return one string", n.name)
+			}
+			if msg := t.limited(r.Results[0], 3); msg != "" {
+				bad = append(bad, fmt.Sprintf("return at %s yields %s", p.Pos(r.Pos()), msg))
+			}
+		}
+		c.Check(len(bad) == 0, "C37.through/"+n.name, p.Pos(fn.Pos()), fmt.Sprintf("all %d returns are results of the length limiter (or constant prefix + fixed-length hash)", len(rs)),
+			n.name+" can return a name that did not pass through the length limiter: "+strings.Join(bad, "; ")+" — such a name skips the shortening-marker rule and can equal another identity's shortened name (or exceed the kernel limit)")
+	}
+	// combineAndTrunc itself: the untruncated return is only reachable when the combination fits
+	cfn := c10MustFunc(c, p, c37IPSets, "combineAndTrunc")
+	if len(cfn.Params) != 3 {
+		c.Lost("combineAndTrunc(prefix, suffix, maxLength)")
+	}
+	maxLen := cfn.Params[2]
+	isLen := func(v ssa.Value) bool {
+		call, ok := v.(*ssa.Call)
+		if !ok {
+			return false
+		}
+		b, ok := call.Common().Value.(*ssa.Builtin)
+		return ok && b.Name() == "len"
+	}
+	var bad []string
+	nr := 0
+	for _, r := range returnsOf(cfn) {
+		nr++
+		if sl, ok := r.Results[0].(*ssa.Slice); ok {
+			if sl.High != maxLen {
+				bad = append(bad, fmt.Sprintf("truncating return at %s cuts to %s, not maxLength", p.Pos(r.Pos()), path(sl.High)))
+			}
+			continue
+		}
+		fits := guardedCut(r, func(cond ssa.Value, pol bool) bool {
+			bo, ok := cond.(*ssa.BinOp)
+			if !ok {
+				return false
+			}
+			switch {
+			case bo.Op == token.GTR && isLen(bo.X) && bo.Y == maxLen, bo.Op == token.LSS && bo.X == maxLen && isLen(bo.Y):
+				return !pol
+			case bo.Op == token.LEQ && isLen(bo.X) && bo.Y == maxLen, bo.Op == token.GEQ && bo.X == maxLen && isLen(bo.Y):
+				return pol
+			}
+			return false
+		})
+		if !fits {
+			bad = append(bad, fmt.Sprintf("untruncated return at %s is reachable with len > maxLength", p.Pos(r.Pos())))
+		}
+	}
+	if nr == 0 {
+		c.Lost("combineAndTrunc has no return")
+	}
+	c.Check(len(bad) == 0, "C37.through/combineAndTrunc", p.Pos(cfn.Pos()), "untruncated result only when it fits; truncated result cut to maxLength", "combineAndTrunc: "+strings.Join(bad, "; ")+": IP set names can exceed the kernel limit")
+	_ = iptMax
 }
